@@ -33,6 +33,9 @@ struct Part {
     // real_first = those in which every real digest precedes every decoy
     mixed_seen: [u64; 2],
     real_first: [u64; 2],
+    // entries of a digest list that are the hash of another entry, of a disclosure string or of a salt
+    // (over the text or over the decoded bytes): a decoy derived from published material is recognisable
+    derived_entries: u64,
 }
 
 fn real_subsequence_in_marking_order(list: &[Value], digests_in_marking_order: &[String]) -> Option<bool> {
@@ -113,6 +116,19 @@ fn run_part(n: u64, offset: u64) -> Part {
                     }
                 }
             }
+            {
+                let mut material: Vec<String> = top.iter().filter_map(|x| x.as_str().map(String::from)).collect();
+                material.extend(ds.iter().map(|d| d.to_string()));
+                let mut images: HashSet<String> = HashSet::new();
+                for m in &material {
+                    images.insert(indep::hash("sha-256", m));
+                    if let Some(bytes) = indep::b64url_decode(m) {
+                        use sha2::Digest;
+                        images.insert(indep::b64url_encode(&sha2::Sha256::digest(&bytes)));
+                    }
+                }
+                part.derived_entries += decoys.iter().filter(|d| images.contains(d.as_str())).count() as u64;
+            }
             part.decoys.extend(decoys);
             let lists: [Option<Vec<Value>>; 3] = [
                 Some(top),
@@ -172,6 +188,7 @@ pub fn exec_history(input: &Value) -> Value {
             sum.marking_order[k] += p.marking_order[k];
             sum.lists_seen[k] += p.lists_seen[k];
         }
+        sum.derived_entries += p.derived_entries;
         for k in 0..2 {
             sum.mixed_seen[k] += p.mixed_seen[k];
             sum.real_first[k] += p.real_first[k];
@@ -190,6 +207,7 @@ pub fn exec_history(input: &Value) -> Value {
         "decoy_count_violations": sum.count_violations, "decoy_form_violations": sum.bad_form,
         "lists_seen": sum.lists_seen, "lists_in_marking_order": sum.marking_order,
         "mixed_lists_seen": sum.mixed_seen, "mixed_lists_real_first": sum.real_first,
+        "decoys_derived_from_published_material": sum.derived_entries,
         "example_dup": [ds, dd, dc],
     })
 }
